@@ -148,7 +148,9 @@ def run(ctx, chk):
         other = [e for e in of.effects if e not in aux and e not in blocks and e not in rows
                  and not (e.kind == "cell" and e.root[0] == "zeros" and e.root[3] != osite)]
         for e in other:
-            chk.violation("C08.where", f"{K}: unclassified store into the observation",
+            # a store whose address / value the effect analysis could not put into one of the
+            # three shapes (aux slot, block copy, host row): what it writes is unknown, not wrong
+            chk.undecided("C08.where", f"{K}: unclassified store into the observation",
                           f"{e.kind} {e.fam} = {cn.show(e.value)[:100]}", e.ev.loc)
         if K == "NoOp":
             chk.ob("C08.silent", "NoOp: no host row is written in partial mode", not rows,
@@ -267,6 +269,14 @@ def check_initial(ctx, chk):
     rows = [e for e in effects if e.kind == "cell" and e.fam == "ROW"]
     ok = len(rows) == 1
     detail = f"{len(rows)} row store(s)"
+    undec = [e for e in effects if e not in rows and e not in blocks]
+    if not rows and undec:
+        chk.undecided("C08.initial", "initial observation, partial: address, reachable, discovered "
+                      "of exactly the hosts whose reachable flag is set",
+                      "0 decoded row store(s); stores that were not decoded as one host's row: "
+                      + "; ".join(f"{e.kind} {e.fam} at {e.ev.loc}" for e in undec[:3]),
+                      fi.module.path)
+        return
     if ok:
         r = rows[0]
         addr = cn.show(r.addr)
